@@ -1239,9 +1239,24 @@ impl<'a, 't, 'g> VGen<'a, 't, 'g> {
         let mut body = self.stmts(&scope, Some(&name), 0, 0);
         body.push(StmtKind::assignment(Variable::named(&name), self.expr(&scope, 0)));
         let f = FuncInfo { name: name.clone(), inputs: ni };
+        // the result type: elementary, or (a quarter of the time) an enumeration or structure declared
+        // earlier - a use of a type like any other (site of UnknownType)
+        let rt0: Type = self.num_type().into();
+        let return_type = if self.g.want("FUNCTION_RESULT_OF_DERIVED_TYPE") && self.t.ratio(1, 4) {
+            let pool: Vec<String> = self.enums.iter().map(|e| e.name.clone()).chain(self.structs.iter().map(|s| s.name.clone())).collect();
+            if pool.is_empty() {
+                rt0
+            } else {
+                let n = pool[self.t.below(pool.len())].clone();
+                self.cur_class = "func.result".into();
+                self.type_ref(&n)
+            }
+        } else {
+            rt0
+        };
         out.push(LibraryElementKind::FunctionDeclaration(FunctionDeclaration {
             name: id(&name),
-            return_type: self.num_type().into(),
+            return_type,
             variables: vars,
             edge_variables: vec![],
             body,
